@@ -157,11 +157,11 @@ Section SolveTerminates.
   Variable V : I -> Prop.
   (* every executed _Step makes the energy history at least one entry longer (true of both DE solvers: one record per generation)
      and keeps the invariant *)
-  Hypothesis Hprogress : forall s c i, G c -> V i ->
+  Hypothesis Hprogress : forall s c i, G c -> V i -> maxiter N s <> LAbs 0 ->
     let r := run_prog inf (a_nested N C I A) s (a_step N C I A s c i) in
     (S (ehlen s c) <= ehlen (set_stepmon N (fst r) (stepmon N (fst r) ++ snd (snd r))) (fst (snd r)))%nat /\ G (fst (snd r)).
   (* Finalize never shortens it, (re)decoration does not touch it *)
-  Hypothesis Hfinal : forall s c,
+  Hypothesis Hfinal : forall s c, G c ->
     (ehlen s c <= ehlen (set_stepmon N s (stepmon N s ++ snd (a_finalize N C I A s c))) (fst (a_finalize N C I A s c)))%nat.
   Hypothesis Hdeco : forall s c i, a_ehist_extra N C I A (a_decorate N C I A s c i) = a_ehist_extra N C I A c.
   Hypothesis HdecoG : forall s c i, G c -> V i -> G (a_decorate N C I A s c i).
@@ -214,21 +214,25 @@ Section SolveTerminates.
     cbn [fst snd]. apply abs_terminated. exact H8.
   Qed.
 
-  Lemma ehlen_finalize s c : (ehlen s c <= ehlen (fst (finalize N C I A s c)) (snd (finalize N C I A s c)))%nat.
+  Lemma ehlen_finalize s c : G c -> (ehlen s c <= ehlen (fst (finalize N C I A s c)) (snd (finalize N C I A s c)))%nat.
   Proof.
-    pose proof (Hfinal s c) as H. unfold finalize. cbn [fst snd].
+    intros HGc. pose proof (Hfinal s c HGc) as H. unfold finalize. cbn [fst snd].
     unfold ehlen, energy_history in *. cbn [stepmon set_live set_stepmon] in *. exact H.
   Qed.
 
   (* a Step that reports no stop has made the energy history strictly longer (when it was non-empty before) or non-empty *)
-  Lemma step_progress s c i : G c -> V i ->
+  Lemma step_progress s c i mi mf : G c -> V i -> abs_limits mi mf s -> (0 < mi)%Z ->
     snd (step N inf C I A s c i) = MNone ->
     (S (ehlen s c) <= ehlen (fst (fst (step N inf C I A s c i))) (snd (fst (step N inf C I A s c i))))%nat /\
     G (snd (fst (step N inf C I A s c i))).
   Proof.
-    intros HG HV. unfold step. cbv zeta.
+    intros HG HV Hl Hpos. unfold step. cbv zeta.
     set (sc := bootstrap N C I A s c i).
     set (pre := match stepmon N (fst sc) with [] => (fst sc, MNone) | _ => terminated N C I A (fst sc) (snd sc) end).
+    assert (Hlpre : abs_limits mi mf (fst pre)).
+    { assert (H1 : abs_limits mi mf (fst sc)) by (subst sc; unfold bootstrap; destruct (live N s); exact Hl).
+      subst pre. destruct (stepmon N (fst sc)); auto. apply abs_terminated; auto. }
+    assert (Hnz : maxiter N (fst pre) <> LAbs 0) by (destruct Hlpre as [E _]; rewrite E; intros K; injection K; lia).
     destruct (snd pre) eqn:Hm; [|intros H; discriminate H..].
     set (r := run_prog inf (a_nested N C I A) (fst pre) (a_step N C I A (fst pre) (snd sc) i)).
     set (s2' := set_fcalls N (fst r) (a_fix_counter N C I A (fst pre) (fst r) (fst (snd r)))).
@@ -244,7 +248,7 @@ Section SolveTerminates.
     { subst sc. unfold bootstrap. destruct (live N s); [exact HG|]. cbn [snd]. destruct (box N s); [apply HdecoG; assumption|exact HG]. }
     assert (E2 : ehlen (fst pre) (snd sc) = ehlen s c).
     { subst pre. destruct (stepmon N (fst sc)); [exact E1|]. rewrite <- E1. apply ehlen_frame. reflexivity. }
-    destruct (Hprogress (fst pre) (snd sc) i G1 HV) as [P PG]. cbv zeta in P, PG. fold r in P, PG. rewrite E2 in P.
+    destruct (Hprogress (fst pre) (snd sc) i G1 HV Hnz) as [P PG]. cbv zeta in P, PG. fold r in P, PG. rewrite E2 in P.
     assert (P3 : (S (ehlen s c) <= ehlen s3 (fst (snd r)))%nat).
     { replace (ehlen s3 (fst (snd r))) with (ehlen (set_stepmon N (fst r) (stepmon N (fst r) ++ snd (snd r))) (fst (snd r))); [exact P|].
       apply ehlen_frame. reflexivity. }
@@ -256,7 +260,7 @@ Section SolveTerminates.
       symmetry. apply ehlen_frame. reflexivity. }
     assert (P6 : (S (ehlen s c) <= ehlen (fst fc) (snd fc))%nat).
     { subst fc. destruct (snd t1); try exact P5;
-        (eapply Nat.le_trans; [exact P5|apply ehlen_finalize]). }
+        (eapply Nat.le_trans; [exact P5|apply ehlen_finalize; exact PG]). }
     split.
     - replace (ehlen (fst (terminated N C I A (fst fc) (snd fc))) (snd fc)) with (ehlen (fst fc) (snd fc)); [exact P6|].
       symmetry. apply ehlen_frame. reflexivity.
@@ -294,14 +298,54 @@ Section SolveTerminates.
     rewrite (no_step_when_stopped N inf C I A s c i Hsm' Hstop). cbn [snd]. exact Hstop.
   Qed.
 
-  Hypothesis Hextra : forall c, (length (a_ehist_extra N C I A c) <= 1)%nat.
+  Hypothesis Hextra : forall c, G c -> (length (a_ehist_extra N C I A c) <= 1)%nat.
+
+  (* with a generation limit of 0 the very first Step reports the stop *)
+  Lemma step_stops_at_zero_limit s c i mf : abs_limits 0 mf s -> snd (step N inf C I A s c i) <> MNone.
+  Proof.
+    intros Hl. unfold step. cbv zeta.
+    set (sc := bootstrap N C I A s c i).
+    assert (H1 : abs_limits 0 mf (fst sc)) by (subst sc; unfold bootstrap; destruct (live N s); exact Hl).
+    assert (Hany : forall s0 c0, abs_limits 0 mf s0 -> snd (terminated N C I A s0 c0) <> MNone).
+    { intros s0 c0 H0. apply (terminated_at_generation_limit s0 c0 0 mf H0). unfold generations. lia. }
+    set (pre := match stepmon N (fst sc) with [] => (fst sc, MNone) | _ => terminated N C I A (fst sc) (snd sc) end).
+    assert (H2 : abs_limits 0 mf (fst pre)).
+    { subst pre. destruct (stepmon N (fst sc)); auto. apply abs_terminated; auto. }
+    destruct (snd pre) eqn:Hm; cbn [snd]; try discriminate.
+    set (r := run_prog inf (a_nested N C I A) (fst pre) (a_step N C I A (fst pre) (snd sc) i)).
+    assert (H3 : abs_limits 0 mf (fst r)) by (apply abs_run_prog; exact H2).
+    set (s2' := set_fcalls N (fst r) (a_fix_counter N C I A (fst pre) (fst r) (fst (snd r)))).
+    set (s3 := set_stepmon N s2' (stepmon N s2' ++ snd (snd r))).
+    assert (H5 : abs_limits 0 mf s3) by exact H3.
+    set (s4 := if has_cb N s3 then set_cblog N s3 (cblog N s3 ++ [fst (a_best N C I A (fst (snd r)))]) else s3).
+    assert (H6 : abs_limits 0 mf s4) by (subst s4; destruct (has_cb N s3); exact H5).
+    set (t1 := terminated N C I A s4 (fst (snd r))).
+    assert (H7 : abs_limits 0 mf (fst t1)) by (apply abs_terminated; exact H6).
+    set (fc := match snd t1 with MNone => (fst t1, fst (snd r)) | _ => finalize N C I A (fst t1) (fst (snd r)) end).
+    assert (H8 : abs_limits 0 mf (fst fc)) by (subst fc; destruct (snd t1); exact H7).
+    apply Hany. exact H8.
+  Qed.
 
   Local Opaque step.
   (* Solve always returns: with absolute limits (they are absolute after the first Terminated) a fuel of
      (generation limit + 3 - length of the energy history) Steps is enough for the loop to stop by itself *)
+  Theorem solve_terminates_zero : forall f s c is dflt mf,
+    abs_limits 0 mf s -> snd (solve N inf C I A (S f) s c is dflt) = true.
+  Proof.
+    intros f s c is dflt mf Hl.
+    change (solve N inf C I A (S f) s c is dflt) with
+      (let r := step N inf C I A s c (hd dflt is) in
+       match snd r with
+       | MNone => solve N inf C I A f (fst (fst r)) (snd (fst r)) (tl is) dflt
+       | m => (fst (fst r), snd (fst r), m, true)
+       end).
+    cbv zeta. pose proof (step_stops_at_zero_limit s c (hd dflt is) mf Hl) as Hs.
+    destruct (snd (step N inf C I A s c (hd dflt is))); cbn [snd]; try reflexivity. congruence.
+  Qed.
+
   Theorem solve_terminates : forall f s c is dflt mi mf,
     G c -> Forall V is -> V dflt ->
-    abs_limits mi mf s -> (0 <= mi)%Z ->
+    abs_limits mi mf s -> (0 < mi)%Z ->
     (Z.to_nat (mi + 3) <= S f + ehlen s c)%nat ->
     snd (solve N inf C I A (S f) s c is dflt) = true.
   Proof.
@@ -317,7 +361,7 @@ Section SolveTerminates.
         assert (H3 : (3 <= Z.to_nat (mi + 3))%nat) by (apply (Z2Nat.inj_le 3 (mi + 3)); lia).
         assert (He : ehlen s c = length (a_ehist_extra N C I A c)).
         { unfold ehlen, energy_history. rewrite E. reflexivity. }
-        pose proof (Hextra c) as H1. rewrite He in Hfuel.
+        pose proof (Hextra c HG) as H1. rewrite He in Hfuel.
         generalize dependent (Z.to_nat (mi + 3)). intros n Hn H3. lia. }
       exact (step_stops_beyond_limit s c (hd dflt is) mi mf Hl Hlen Hsm Hm).
     - change (solve N inf C I A (S (S f)) s c is dflt) with
@@ -329,7 +373,7 @@ Section SolveTerminates.
       cbv zeta.
       destruct (snd (step N inf C I A s c (hd dflt is))) eqn:Hm; cbn [snd]; try reflexivity.
       assert (Hi : V (hd dflt is)) by (destruct is; simpl; auto; inversion His; auto).
-      destruct (step_progress s c (hd dflt is) HG Hi Hm) as [Hp HG'].
+      destruct (step_progress s c (hd dflt is) mi mf HG Hi Hl Hmi Hm) as [Hp HG'].
       apply (IH _ _ _ _ mi mf).
       + exact HG'.
       + destruct is; simpl; auto. inversion His; auto.
